@@ -53,6 +53,9 @@ type c17Out struct {
 	T        []string `json:"t"`        // rows of t, "id=v", sorted by id
 	Child    []string `json:"child"`    // rows of child
 	Tables   []string `json:"tables"`   // table names
+	Indexes  []string `json:"indexes"`  // explicit index names
+	Views    []string `json:"views"`    // view names
+	TCols    []string `json:"tcols"`    // column names of t
 	ProbeOK  bool     `json:"probe_ok"` // a following write through another connection succeeded
 	ProbeErr string   `json:"probe_err,omitempty"`
 	Leaked   int      `json:"leaked"` // descriptors on the database file still open after return
@@ -207,6 +210,9 @@ func TestVerifC17(t *testing.T) {
 		o.T = c17Strings(p, "SELECT id || '=' || v FROM t ORDER BY id")
 		o.Child = c17Strings(p, "SELECT id || '>' || pid FROM child ORDER BY id")
 		o.Tables = c17Strings(p, "SELECT name FROM sqlite_master WHERE type='table' ORDER BY name")
+		o.Indexes = c17Strings(p, "SELECT name FROM sqlite_master WHERE type='index' AND name NOT LIKE 'sqlite_autoindex%' ORDER BY name")
+		o.Views = c17Strings(p, "SELECT name FROM sqlite_master WHERE type='view' ORDER BY name")
+		o.TCols = c17Strings(p, "SELECT name FROM pragma_table_info('t') ORDER BY cid")
 		p.Close()
 
 		outs = append(outs, o)
@@ -237,6 +243,8 @@ type c17Shape struct {
 	RollbackClearsErr bool      `json:"rollback_clears_on_err"`
 	CloseSkipsOpenTx  bool      `json:"close_skips_open_tx"` // Database.Close returns early while d.Transaction != nil
 	CloseClosesHandle bool      `json:"close_closes_handle"`
+	ShimUsesTx        bool      `json:"shim_uses_tx"` // Database.Exec and Database.Query go to d.Transaction when it is set
+	Bypass            []string  `json:"bypass"`       // places in scripting/*.go that touch .Handle / .Transaction directly
 }
 
 func c17Src(fset *token.FileSet, n ast.Node) string {
@@ -554,6 +562,60 @@ func TestVerifC17Exits(t *testing.T) {
 				}
 			}
 		}
+	}
+
+	// ---- every statement of an operation goes through the Database shim, and the shim uses the transaction
+	shim := 0
+
+	for _, fn := range []string{"exec.go", "query.go"} {
+		g, err := parser.ParseFile(fset, filepath.Join(src, "internal/server/tables/database", fn), nil, 0)
+		if err != nil {
+			t.Fatal(err)
+		}
+
+		for _, d := range g.Decls {
+			fd, ok := d.(*ast.FuncDecl)
+			if !ok || fd.Recv == nil || fd.Body == nil || (fd.Name.Name != "Exec" && fd.Name.Name != "Query") {
+				continue
+			}
+
+			for _, st := range fd.Body.List {
+				ifs, ok := st.(*ast.IfStmt)
+				if !ok || c17Src(fset, ifs.Cond) != "d.Transaction != nil" || len(ifs.Body.List) != 1 {
+					continue
+				}
+
+				if r, ok := ifs.Body.List[0].(*ast.ReturnStmt); ok && len(r.Results) == 1 &&
+					strings.HasPrefix(c17Src(fset, r.Results[0]), "d.Transaction."+fd.Name.Name+"(sqlText") {
+					shim++
+				}
+			}
+		}
+	}
+
+	shape.ShimUsesTx = shim == 2
+	shape.Bypass = []string{}
+
+	files, _ := filepath.Glob(filepath.Join(src, "internal/server/tables/scripting/*.go"))
+	sort.Strings(files)
+
+	for _, fn := range files {
+		if strings.HasSuffix(fn, "_test.go") {
+			continue
+		}
+
+		g, err := parser.ParseFile(fset, fn, nil, 0)
+		if err != nil {
+			t.Fatal(err)
+		}
+
+		ast.Inspect(g, func(x ast.Node) bool {
+			if sel, ok := x.(*ast.SelectorExpr); ok && (sel.Sel.Name == "Handle" || sel.Sel.Name == "Transaction") {
+				shape.Bypass = append(shape.Bypass, fmt.Sprintf("%s:%d %s", filepath.Base(fn), fset.Position(sel.Pos()).Line, c17Src(fset, sel)))
+			}
+
+			return true
+		})
 	}
 
 	sort.SliceStable(shape.Exits, func(i, j int) bool { return shape.Exits[i].Line < shape.Exits[j].Line })
